@@ -344,6 +344,12 @@ def mapRes {α γ : Type} (f : α → Res γ) : List α → Res (List γ)
   | [] => .ok []
   | a :: l => (f a).bind fun b => (mapRes f l).bind fun bs => .ok (b :: bs)
 
+/-- `a sep b sep c` (what the `if idx > 0 { buf.WriteString(sep) }` loops produce) -/
+def joinSep (sep : List Nat) : List (List Nat) → List Nat
+  | [] => []
+  | [a] => a
+  | a :: b :: l => a ++ sep ++ joinSep sep (b :: l)
+
 /-- text, `multiline` flag, prefixes marked as used -/
 structure Piece where
   text : List Nat
@@ -400,10 +406,10 @@ def write {β : Type} [DecidableEq β] (c : Ctx β) (d7 : Bool) : Nat → Job β
         let pMulti := decide (group.length > 1)
         let ind2 := if pMulti then ind1 + 1 else ind1
         (mapOR (fun s => write c d7 fuel (.stmt ind2 s)) group).bind fun rs =>
-          OR.ok (⟨lead multi ind1 ++ pt ++ [sp, 0x2c].intercalate (rs.map (fun r => lead pMulti ind2 ++ r.text)),
+          OR.ok (⟨lead multi ind1 ++ pt ++ joinSep [sp, 0x2c] (rs.map (fun r => lead pMulti ind2 ++ r.text)),
                   pMulti || rs.any (·.multi),
                   usedOfPredicate c.pm p ++ rs.flatMap (·.used)⟩ : Piece)) preds).bind fun gs =>
-      OR.ok ⟨[sp, 0x3b].intercalate (gs.map (·.text)), multi || gs.any (·.multi), gs.flatMap (·.used)⟩
+      OR.ok ⟨joinSep [sp, 0x3b] (gs.map (·.text)), multi || gs.any (·.multi), gs.flatMap (·.used)⟩
 
 /-- enough fuel for `write … (.put _ l)` -/
 def fuelFor {β : Type} (l : List (Stmt β)) : Nat := 3 * stmtsDepth l + 3
